@@ -125,13 +125,18 @@ func RunInterleave(c *sim.Ctx, prop string) {
 	}
 	comp := cWlru
 	if prop == "C28" {
-		comp = knob("component", 0, cBuffer) // cachedproducer is not among the components the property names
+		// cachedproducer is not among the components the property names; the pool (three databases, two locks) gets more runs
+		comp = int(c.Knob("component", func() int64 { return int64(c.PickW("component", []int{2, 2, 6, 2, 2, 2})) }))
 	}
 	maxTasks, maxOps := 5, 8
 	if c.Tier == "thorough" {
 		maxTasks, maxOps = 8, 10
 	}
 	nTasks := knob("tasks", 2, maxTasks)
+	poolMix = 0
+	if comp == cPool {
+		poolMix = knob("pool_operation_mix", 0, 1)
+	}
 	if prop == "C29" {
 		nTasks = knob("tasks_c29", 1, maxTasks)
 	}
@@ -139,7 +144,7 @@ func RunInterleave(c *sim.Ctx, prop string) {
 	switchPm := []int{50, 200, 500, 900}[knob("switch_permille", 0, 3)]
 	pct := knob("priority_schedule", 0, 2) == 0
 	pctDepth := knob("priority_change_points", 1, 4)
-	c.ProbeDecl("race_report", "history_checked_by_porcupine", "porcupine_inconclusive", "context_switches_over_20", "timer_fired", "blocked_task_woken")
+	c.ProbeDecl("underlying_read_through_kept_handle", "race_report", "history_checked_by_porcupine", "porcupine_inconclusive", "context_switches_over_20", "timer_fired", "blocked_task_woken")
 
 	// ---- plan: per task a list of ops, drawn up front ----
 	plans := make([][]sim.Op, nTasks)
@@ -200,6 +205,9 @@ func RunInterleave(c *sim.Ctx, prop string) {
 	}
 	c.SimTime(ss.Steps)
 	c.Count("scheduler_choices", int64(len(sched)))
+	for i := 0; i < env.keptReads; i++ {
+		c.Probe("underlying_read_through_kept_handle")
+	}
 	switches := 0
 	for i := 1; i < len(sched); i++ {
 		if sched[i] != sched[i-1] {
@@ -243,7 +251,7 @@ func RunInterleave(c *sim.Ctx, prop string) {
 					}
 					if splitFlush && h.op.K == "flushpool" {
 						// a pool flush seen as one flush per database, each somewhere inside the call
-						for d := int64(0); d < 2; d++ {
+						for d := int64(0); d < nPoolDBs; d++ {
 							ops = append(ops, porcupine.Operation{ClientId: t, Input: sim.Op{K: "flushdb", A: []int64{0, 0, d}}, Call: h.inv, Output: h.out, Return: h.ret})
 						}
 						continue
@@ -269,9 +277,27 @@ func RunInterleave(c *sim.Ctx, prop string) {
 				}
 			}
 			if comp == cPool {
-				// is it illegal only because Flush(id) is not one atomic step across the databases?
+				// is it illegal only because Flush(id) is not one atomic step across the databases *with respect to
+				// concurrent writers*?  (Flush excludes the readers of the underlying databases for its whole
+				// duration; writers take only their store's lock.)  The known finding needs a write that overlaps
+				// a flush; without one a flush has to look atomic.
+				writerOverlapsFlush := false
+				for t := range hist {
+					for _, f := range hist[t] {
+						if !f.done || f.op.K != "flushpool" {
+							continue
+						}
+						for u := range hist {
+							for _, w := range hist[u] {
+								if u != t && (w.op.K == "put" || w.op.K == "del") && (!w.done || w.inv < f.ret) && (w.done && w.ret > f.inv || !w.done) {
+									writerOverlapsFlush = true
+								}
+							}
+						}
+					}
+				}
 				splitFlush = true
-				if check(func(sim.Op) bool { return true }) == porcupine.Ok {
+				if writerOverlapsFlush && check(func(sim.Op) bool { return true }) == porcupine.Ok {
 					sig += "/flush-not-atomic-across-databases"
 				}
 				splitFlush = false
@@ -320,7 +346,9 @@ type env struct {
 	store  kvdb.FlushableKVStore
 	nr     *NRStore
 	pool   *flushable.SyncedPool
-	pstore [2]kvdb.Store
+	pstore [nPoolDBs]kvdb.Store
+	kept   [nPoolDBs]kvdb.Store
+	keptReads int
 	cache  *wlru.Cache
 	cacheMaxW uint
 	cacheMaxS int
@@ -335,6 +363,13 @@ type env struct {
 	handles [2][]kvdb.Store
 	under  *countingNR
 }
+
+var poolNames = []string{"a", "b", "c"}
+var poolMix int
+
+
+//go:norace
+func (e *env) keptReadInc() { e.keptReads++ }
 
 var evParents = [][]int{{}, {0}, {0}, {1, 2}, {3}, {}}
 
@@ -353,13 +388,24 @@ func newEnv(c *sim.Ctx, comp int) *env {
 		e.store = e.lazy
 	case cPool:
 		e.pool = flushable.NewSyncedPool(&NRProducer{}, []byte{0xf0})
-		e.pstore[0], _ = e.pool.OpenDB("a")
-		e.pstore[1], _ = e.pool.OpenDB("b")
+		for i := range e.pstore {
+			e.pstore[i], _ = e.pool.OpenDB(poolNames[i])
+		}
+		if c.Knob("underlying_handles_prepared", func() int64 { return int64(c.PickW("underlying_handles_prepared", []int{1, 3})) }) == 1 {
+			// the application obtained the read-only handles of the underlying databases before its goroutines started
+			for i := range e.kept {
+				e.kept[i], _ = e.pool.GetUnderlying(poolNames[i])
+			}
+		}
 	case cWlru:
 		maxW := int(c.Knob("max_weight", func() int64 { return int64(c.Int("max_weight", 0, 8)) }))
 		maxS := int(c.Knob("max_size", func() int64 { return int64(c.Int("max_size", 0, 4)) }))
 		e.cacheMaxW, e.cacheMaxS = uint(maxW), maxS
-		e.cache, _ = wlru.NewWithEvict(uint(maxW), maxS, func(k, v interface{}) { e.evicts = append(e.evicts, fmt.Sprintf("%v=%v", k, v)) })
+		if c.Knob("cache_without_eviction_callback", func() int64 { return int64(c.PickW("cache_without_eviction_callback", []int{3, 1})) }) == 1 {
+			e.cache, _ = wlru.New(uint(maxW), maxS)
+		} else {
+			e.cache, _ = wlru.NewWithEvict(uint(maxW), maxS, func(k, v interface{}) { e.evicts = append(e.evicts, fmt.Sprintf("%v=%v", k, v)) })
+		}
 	case cSemaphore:
 		e.sem = datasemaphore.New(dag.Metric{Num: 4, Size: 40}, func(a, b, c dag.Metric) { e.warns++ })
 	case cBuffer:
@@ -438,13 +484,18 @@ func genOp(c *sim.Ctx, comp, task int) sim.Op {
 		return sim.Op{K: names[c.PickW("op", w)], A: []int64{k, v, int64(c.Pick("key2", len(keys)))}}
 	case cPool:
 		names := []string{"put", "get", "del", "flushpool", "underget", "nfsize", "names", "has"}
-		return sim.Op{K: names[c.PickW("op", []int{8, 6, 3, 3, 4, 2, 1, 3})], A: []int64{k, v, int64(c.Pick("db", 2))}}
+		w := []int{8, 6, 3, 3, 4, 2, 1, 3}
+		if poolMix == 1 {
+			// swarm: a run made of writes, flushes and reads of the underlying databases only (what a flush looks like to those readers)
+			w = []int{5, 0, 1, 4, 10, 0, 0, 0}
+		}
+		return sim.Op{K: names[c.PickW("op", w)], A: []int64{k, v, int64(c.Pick("db", nPoolDBs))}}
 	case cWlru:
 		names := []string{"add", "get", "peek", "contains", "remove", "len", "keys", "total", "purge", "resize", "containsoradd", "peekoradd", "removeoldest", "getoldest", "weight"}
 		return sim.Op{K: names[c.PickW("op", []int{10, 6, 3, 3, 3, 2, 3, 2, 1, 1, 4, 4, 2, 2, 1})], A: []int64{k, v, int64(c.Int("weight", 0, 6)), int64(c.Int("size", 0, 4))}}
 	case cSemaphore:
 		names := []string{"acquire", "try", "release", "processing", "available", "terminate"}
-		return sim.Op{K: names[c.PickW("op", []int{8, 4, 10, 3, 2, 0})], A: []int64{int64(c.Int("num", 0, 3)), int64(c.Int("size", 0, 3)) * 10, int64([]int{1, 50, 1000}[c.Pick("timeout", 3)])}}
+		return sim.Op{K: names[c.PickW("op", []int{8, 4, 10, 3, 2, 1})], A: []int64{int64(c.Int("num", 0, 3)), int64(c.Int("size", 0, 3)) * 10, int64([]int{1, 50, 1000}[c.Pick("timeout", 3)])}}
 	case cBuffer:
 		names := []string{"push", "isbuffered", "total", "clear"}
 		return sim.Op{K: names[c.PickW("op", []int{10, 4, 3, 1})], A: []int64{int64(c.Pick("event", len(evParents)))}}
@@ -531,8 +582,8 @@ func (e *env) do(task int, op sim.Op) string {
 			}
 		}
 	case cPool:
-		st := e.pstore[int(a(2))%2]
-		name := []string{"a", "b"}[int(a(2))%2]
+		st := e.pstore[int(a(2))%nPoolDBs]
+		name := poolNames[int(a(2))%nPoolDBs]
 		switch op.K {
 		case "put":
 			return fmt.Sprint(st.Put(kb(a(0)), []byte{byte(a(1))}))
@@ -546,9 +597,18 @@ func (e *env) do(task int, op sim.Op) string {
 		case "flushpool":
 			return fmt.Sprint(e.pool.Flush([]byte{byte(a(1))}))
 		case "underget":
-			u, err := e.pool.GetUnderlying(name)
-			if err != nil {
-				return "err:" + err.Error()
+			// an application keeps the read-only handle of an underlying database and reads through it later
+			// (also while a flush is running); handles are obtained once per database and shared by the tasks
+			di := int(a(2)) % nPoolDBs
+			u := e.kept[di] // written before the tasks started, read-only afterwards
+			if u == nil || a(1)%4 == 0 {
+				var err error
+				u, err = e.pool.GetUnderlying(name)
+				if err != nil {
+					return "err:" + err.Error()
+				}
+			} else {
+				e.keptReadInc()
 			}
 			return bstr(u.Get(kb(a(0))))
 		case "nfsize":
